@@ -53,12 +53,12 @@ PROPS = {
     "C02": {
         "title": "Everything written to the wire is well-formed RFC 6455 / RFC 7692 framing",
         "level": "exploration",
-        "rule": "same generator as C01; the bytes handed to the transport are decoded by the independent strict decoder wsref (mask bit per role, minimal lengths, RSV, opcode/continuation discipline, control frames, close body), matched one-to-one and in order to the API-level messages after unmasking and RFC 7692 inflation, control frames placed between the surrounding flushes, RSV1 only if negotiated+enabled at message start; client mask keys must be fresh 4-byte draws from the connection's key source (verif hook) and the default source must be crypto/rand.Reader. Non-trivial as C01.",
+        "rule": "same generator as C01; the bytes handed to the transport are decoded by the independent strict decoder wsref (mask bit per role, minimal lengths, RSV, opcode/continuation discipline, control frames, close body), matched one-to-one and in order to the API-level messages after unmasking and RFC 7692 inflation, control frames placed between the surrounding flushes, RSV1 only if negotiated+enabled at message start; client mask keys must be fresh 4-byte draws from the connection's key source (verif hook) and the default source must be crypto/rand.Reader. Non-trivial as C01. part prepared-shared: one PreparedMessage sent to a population of connections of differing role / negotiated compression / write-compression setting / level (the C19 generator): every send must put exactly one well-formed message in that connection's framing variant on its wire.",
         "assumptions": TRUST + ["mask key quality is reduced to: default source is crypto/rand.Reader and every frame key is a fresh draw from the configured source"],
         "level_text": "Bounded random exploration of write programs; every byte the connection hands to the transport is judged by an independent strict RFC 6455/7692 decoder and matched to the API-level messages. Exploration because the input space is unbounded.",
         "level_note": "Independent decoder wsref (self-tested on the RFC 6455 5.7 and RFC 7692 7.2.3 byte strings); compress/flate is trusted for inflation; the mask-key clause uses the verif hook (falls back to a statistical check if the tagged build fails).",
         "technique": "property-based testing (rapid): generated write programs, independent-decoder differential oracle",
-        "legs": [leg("^TestC02$", 5000, 160000, qshards=8), fuzzleg("FuzzC02", 60)],
+        "legs": [leg("^TestC02$", 5000, 160000, qshards=8), fuzzleg("FuzzC02", 60), leg("^TestC02Prepared$", 2500, 60000, qshards=8)],
     },
     "C03": {
         "title": "The reader decodes any conformant peer stream, however fragmented or read",
@@ -81,7 +81,7 @@ PROPS = {
         "level_text": "The header alphabet is finite and is enumerated completely in every run (29696 cells); the history quantifier is explored by random prefixes. Each cell is one injected protocol fault, hence fault_enumeration.",
         "level_note": "Independent classifier written from RFC 6455 5.2/5.4/5.5/7.4 in harness/props/c04.go; valid cells are cross-checked against the reference decoder so the classifier cannot drift to reject-everything.",
         "technique": "exhaustive alphabet enumeration + property-based testing (rapid) of prefix histories, independent classifier oracle",
-        "legs": [leg("^TestC04Cells$", 1, 1, qshards=8, tshards=16), leg("^TestC04Hist$", 6000, 200000, qshards=8), fuzzleg("FuzzC04Hist", 60)],
+        "legs": [leg("^TestC04Cells$", 1, 1, qshards=8, tshards=16), leg("^TestC04Hist$", 6000, 200000, qshards=8), raceleg("^TestC04Owned$", 300, 12000), fuzzleg("FuzzC04Hist", 60)],
     },
     "C05": {
         "title": "No silent truncation: a transport fault yields whole messages, then an error",
